@@ -206,6 +206,16 @@ func frameBytesF(f []any, tag func(sid uint32) string, trailer bool, front bool)
 		return h2raw.Frame(h2raw.TPushPromise, h2raw.FEndHeaders, sid, []byte{0, 0, 0, 2, 0x82})
 	case "UNKNOWN":
 		return h2raw.Frame(0x42, 0, sid, []byte{1, 2, 3})
+	case "PING":
+		switch kind {
+		case "ack":
+			return h2raw.Frame(h2raw.TPing, h2raw.FAck, sid, []byte{0xaa, 1, 2, 3, 4, 5, 6, 7})
+		case "bad":
+			return h2raw.Frame(h2raw.TPing, 0, sid, []byte{0xaa, 1, 2, 3, 4, 5, 6})
+		}
+		return h2raw.Frame(h2raw.TPing, 0, sid, []byte{0xaa, 1, 2, 3, 4, 5, 6, 7})
+	case "GOAWAY":
+		return h2raw.Frame(h2raw.TGoAway, 0, sid, []byte{0, 0, 0, 0, 0, 0, 0, 0}) // last stream 0, NO_ERROR
 	}
 	panic("frame " + typ)
 }
@@ -277,7 +287,10 @@ func runPath(st *stack.Stack, g *gated, p Path) PathObs {
 				}
 			case h2raw.TGoAway:
 				got = append(got, []any{"C", codeName[f.U32(4)], f.U32(0) & 0x7fffffff})
-				return got, ""
+				if f.U32(4) != 0 || !usePing {
+					return got, ""
+				}
+				// GOAWAY(NO_ERROR): the graceful answer to our own GOAWAY; the connection lives on, wait for the barrier
 			case h2raw.TSettings:
 				if f.Flags&h2raw.FAck != 0 {
 					got = append(got, []any{"ACK"})
@@ -285,6 +298,9 @@ func runPath(st *stack.Stack, g *gated, p Path) PathObs {
 			case h2raw.TPing:
 				if usePing && f.Flags&h2raw.FAck != 0 && len(f.Payload) == 8 && f.Payload[0] == 0xfe && f.Payload[1] == pingN {
 					gotAck = true
+				}
+				if f.Flags&h2raw.FAck != 0 && len(f.Payload) == 8 && f.Payload[0] == 0xaa {
+					got = append(got, []any{"PONG"})
 				}
 			}
 			for sid, r := range hc.Resp {
@@ -347,7 +363,7 @@ func runPath(st *stack.Stack, g *gated, p Path) PathObs {
 			}
 			wantConnErr := false
 			for _, x := range s.Expect {
-				if x[0] == "C" {
+				if x[0] == "C" && !(len(x) > 1 && x[1] == "NO") {
 					wantConnErr = true
 				}
 			}
@@ -418,7 +434,7 @@ func runPath(st *stack.Stack, g *gated, p Path) PathObs {
 		}
 		dead := false
 		for _, x := range so.Got {
-			if x[0] == "C" {
+			if x[0] == "C" && !(len(x) > 1 && x[1] == "NO") {
 				dead = true
 			}
 		}
